@@ -32,7 +32,8 @@
 //  for the rng_blocks that make_rng_blocks builds: unit composite, not re-proved here).
 // ASSUMED -- not proved anywhere:
 //  assemble_kkt_matrix as a whole (its pieces are under contract in units csc_utils / kkt_assemble): K is square of order P.n + A.m + pdim, |map.Hsblocks| =
-//    hs_total(cones), |map.diag_full| = K.n, |K.nzval| = |K.rowval|, the pdim sum fits usize; WHAT it assembles is only NAMED (kkt_assembled).
+//    hs_total(cones), |map.diag_full| = K.n, |K.nzval| = |K.rowval|, the pdim sum fits usize, every recorded slot inside K and one sparse map per
+//    sparse-expandable cone, of its kind (asm_map_ok); WHAT it assembles is only NAMED (kkt_assembled).
 //  get_ldlsolver_config: returns (shape, constructor) for the configured method (function-pointer table, closures coerced to fn pointers: not
 //    expressible in Verus).  LDLConstructor::call (rule fnptr: `ldl_ctor(..)` -> `ldl_ctor.call(..)`): the common contract of the constructors the
 //    table can hold -- for QDLDL it is the contract QDLDLDirectLDLSolver::new is PROVED against in unit kkt_solve (requires a square matrix; the
@@ -44,6 +45,17 @@
 //    function arguments: that `_update_values` / `_scale_values` are the functions passed is visible in the extracted text, not in a postcondition.
 //  SupportedCone stand-in (enum_dispatch enum), OtherCone::is_sparse_expandable() == false: as in unit kkt_assemble.
 // DROPPED: nothing of the two bodies.  NOT under contract here: linear_solver_info; get_ldlsolver_config's body.
+// New rewrite rule (tools/extract.py, additive): fnptr:NAME (`NAME(args)` -> `NAME.call(args)` for a local holding a function pointer).
+// History variable: the engine stand-in carries a ghost `log` of the (cone, map) pairs handed to csc_update_sparsecone; `update` is proved to append
+//  exactly sx_events(cones, maps): every sparse-expandable cone once, in order, each with the next map.
+// `new` also establishes kkt_upd_pre (the precondition of `update`), from the dimension / map facts ASSUMED for assemble_kkt_matrix (asm_map_ok).
+// MEASURED (verus --rlimit 50 = 150 M units): 68 obligations, 11 s; heaviest of the new text: regularize_and_refactor 1.2 M (0.8 %), update 0.5 M, new 0.13 M
+//  (the shared fragments _update_values_KKT 5.9 M and rscale 2.5 M are those of kkt_reg); seeds 1..5 stable.
+// MUTATION ROUND (scratch copy, one wrong edit at a time, 26 edits): all 26 fail a named obligation -- update: negate dropped, get_Hs dropped,
+//  map.diag_full / map.P instead of map.Hsblocks, the engine not told (_update_values_KKT only), flag replaced by `true`, regularize_and_refactor dropped,
+//  sparse loop dropped / its call dropped / `break` after the first cone / first map skipped / test inverted; new: dsigns of length n+m, work1 n+m, x n+p,
+//  p = 0, _fill_signs(n, m) / dropped / called after the engine was built, regulariser 1, constructor called with Some(perm) / on P, Hsblocks one too
+//  long; regularize_and_refactor: returns true, sign test inverted, regulariser not recorded.  No survivor.
 use vstd::prelude::*;
 use core::ops::Range;
 use vstd::std_specs::iter::IteratorSpec;
@@ -414,6 +426,12 @@ fn _fill_signs(signs: &mut [i8], m: usize, n: usize, map: &LDLDataMap)
         final(signs)@.len() == old(signs)@.len(),
         signs_pattern(final(signs)@, m, n, *map),
 { unimplemented!() }
+pub open spec fn asm_map_ok(K: CscMatrix<F>, map: LDLDataMap, cones: CompositeCone<F>) -> bool {
+    let nz = K.nzval@.len() as int;
+    &&& idx_below(map.Hsblocks@, nz) && idx_below(map.diag_full@, nz)
+    &&& maps_match(cones.cones@, map.sparse_maps@)
+    &&& forall|i: int| 0 <= i < map.sparse_maps@.len() ==> slots_below(#[trigger] map.sparse_maps@[i], nz)
+}
 // ASSUMED, not proved anywhere as a whole: WHAT is assembled is only named; the dimension facts are what the slices proved in kkt_assemble give
 pub uninterp spec fn kkt_assembled(P: CscMatrix<F>, A: CscMatrix<F>, cones: CompositeCone<F>, shape: MatrixTriangle, K: CscMatrix<F>, map: LDLDataMap) -> bool;
 #[verifier::external_body]
@@ -422,6 +440,9 @@ pub fn assemble_kkt_matrix(P: &CscMatrix<F>, A: &CscMatrix<F>, cones: &Composite
         kkt_assembled(*P, *A, *cones, shape, r.0, r.1),
         r.0.m == r.0.n, r.0.n == P.n + A.m + maps_pdim(r.1.sparse_maps@, r.1.sparse_maps@.len() as int), r.0.nzval@.len() == r.0.rowval@.len(),
         r.1.Hsblocks@.len() == hs_total(*cones), r.1.diag_full@.len() == r.0.n,
+        // every recorded slot lies inside K, and the i-th sparse-expandable cone owns the i-th sparse map (LDLDataMap::new and the fill passes:
+        // PROVED piecewise in units kkt_assemble / csc_utils)
+        asm_map_ok(r.0, r.1, *cones),
 { unimplemented!() }
 // ASSUMED: the function-pointer table.  LDLConstructor stands for `fn(&CscMatrix<T>, &[i8], &CoreSettings<T>, Option<Vec<usize>>) -> BoxedDirectLDLSolver<T>`
 pub struct LDLConstructor { pub id: u8 }
@@ -537,6 +558,8 @@ impl DirectLDLKKTSolver<F> {
         kkt_assembled(*P, *A, *cones, cfg_shape(*settings), r.KKT, r.map),
         eng_built_on(r.ldlsolver, cfg_ctor(*settings), r.KKT, r.dsigns@, *settings, None),
         r.ldlsolver.copy@ == r.KKT.nzval@,
+        // the object is fit for `update`
+        kkt_upd_pre(r, *cones),
 //@after "let (KKT, map) = assemble_kkt_matrix(P, A, cones, kktshape);"
         proof { lemma_maps_mono(map.sparse_maps@, 0, map.sparse_maps@.len() as int); }
 //@end
